@@ -96,6 +96,7 @@ func init() {
 		ruleMergeUnset(c, r)
 		ruleBinaryLeaf(c, r)
 		ruleUnionCopy(c, r)
+		ruleOMDisjoint(c, r)
 	})
 }
 
